@@ -110,7 +110,11 @@ META = {
              "links and serialized history-event blobs - and the skip shortcut never changes the result. The obligations are re-established on every run, by "
              "kernel evaluation, for facts REGENERATED from the source (981 struct types reachable from all 308 request/response types, tables read from the "
              "running code): so a new message type/field, a renamed Go field, an unrecognised event blob or a skippable event that can reach a namespace "
-             "breaks a proof obligation. Correspondence on real messages built along every kind of path + independent reference translation as monitor.",
+             "breaks a proof obligation. Correspondence on real messages built along every kind of path + independent reference translation as monitor. "
+             "VALUE level (C12V): an executable Lean model of visitNamespace on whole message trees (structs in type-graph field order, lists, maps, oneof wrappers, "
+             "decoded event blobs with a re-encoded mark, per-list skip shortcut incl. its Links rule, History recursion, NamespaceInfo by type), diffed with the real "
+             "translator on dumped real messages; theorem: for every tree and every path realised in it, if the path model says `translates` then the string at "
+             "that position of the translated tree is translateName m of the original - so the coverage theorem lifts from paths to values.",
         design_ref="DESIGN.md §5 C12",
         note=BASE_NOTE + "Trusted additionally: the translator go/eng/typegraph_test.go (reflection over the pinned generated structs; oracle from proto tags; reviewed non-event blob list). Modelled not verified: visit.Values' universal descent, protobuf codecs, the event serializer.",
         technique="Lean 4 generic path theorem + regenerated finite obligations (decide +kernel) + model/implementation correspondence",
@@ -119,17 +123,27 @@ META = {
         text="Theorems for ALL mappings and names: exact-match lookup leaves unmapped names untouched, a name is mapped once (chains a->b,b->c), NewStaticBiMap "
              "succeeds exactly for one-to-one lists, round trip through a mapping and its inverse restores every name that is not an unmapped image, the two servers "
              "of a cluster connection use opposite maps so out-and-back restores the name; on the regenerated type graph every field the visitor can assign is a "
-             "namespace-name field (finite obligation, kernel-evaluated). Tied to collect.NewStaticBiMap, the real translator and a running proxy pair.",
+             "namespace-name field (finite obligation, kernel-evaluated). Tied to collect.NewStaticBiMap, the real translator and a running proxy pair. "
+             "VALUE level (C13V), for ALL graphs/tables/mappings/trees of the value-level visitor model (diffed with the real translators on dumped real messages): "
+             "blanking the namespace-name leaves makes an object and its translation identical (shape, every other scalar, keys, lengths, blob structure); no "
+             "visited name in the mapping => the very same object, matched=false, no blob re-encoded; matched=false => unchanged; translating back with the inverse "
+             "of a one-to-one mapping (not involving the empty name) restores every object whose visited names avoid the unmapped targets, same for "
+             "search-attribute keys; Lean witness that the empty-name hypothesis is needed.",
         design_ref="DESIGN.md §5 C13",
-        note=BASE_NOTE + "Modelled not verified: Go map semantics as association lists; 'every other field identical' is checked behaviourally (reference translation + proto.Equal), not proved for the Go reflection library.",
+        note=BASE_NOTE + "Modelled not verified: Go map semantics as association lists; 'every other field identical' is proved for the value-level MODEL of the visitor (C13V) and the model is tied to the Go reflection walk by differential testing on dumped real messages, not by proof about the Go library.",
         technique="Lean 4 algebraic/round-trip theorems + regenerated finite obligation + model/implementation correspondence (exhaustive bimap lists, end-to-end direction)",
     ),
     "C14": dict(
         text="Theorems for ALL mappings and key sets: every key goes through the exact-match mapping once, values and size untouched, distinct keys stay distinct "
              "under the property's no-collision hypothesis; the translator is off for WorkflowService and on for AdminService; on the regenerated type graph every "
-             "search-attributes container sits in a field the visitor recognises (finite obligation). Tied to the real translator on every container path incl. blobs.",
+             "search-attributes container sits in a field the visitor recognises (finite obligation). Tied to the real translator on every container path incl. blobs. "
+             "VALUE level (C14V), for ALL graphs/tables/mappings/trees of the value-level model of visitSearchAttributes (diffed with the real translator on dumped "
+             "real messages): under the explicit no-collision hypothesis the translated object IS the simultaneous renaming of the keys of every container the visitor "
+             "reaches (typed, bare map, inside recognised blobs) - keys through translateName, entries keep their values, unmapped keys kept, nothing else differs, "
+             "unmatched => unchanged; the collision case separately: the flag means two entries of one container get the same new key (Go then loses one, order-"
+             "dependent), and it cannot happen for a one-to-one mapping on distinct keys avoiding the unmapped targets.",
         design_ref="DESIGN.md §5 C14",
-        note=BASE_NOTE + "Modelled not verified: Go map iteration/rebuild (association lists), payload bytes compared behaviourally.",
+        note=BASE_NOTE + "Modelled not verified: Go map iteration/rebuild (association lists; the collision case is explicit: model and real code are compared as `collision` = a rebuilt map lost an entry), payload bytes compared behaviourally (opaque tokens = hash of the deterministic encoding).",
         technique="Lean 4 key-rename theorems + regenerated finite obligation + model/implementation correspondence",
     ),
     "C16": dict(
